@@ -118,7 +118,11 @@ func (h *heartbeatManager) checkSessions() {
 		}
 
 		// Check if session has timed out
-		session.mu.Lock()
+		// A send to this replica may be stuck (the replica stopped reading);
+		// do not let it stop the monitoring of all other sessions
+		if !session.mu.TryLock() {
+			continue
+		}
 		lastActivity := session.LastActivity
 		if now.Sub(lastActivity) > h.config.Timeout {
 			log.Warn("Session %s timed out after %.1fs of inactivity",
